@@ -2795,6 +2795,70 @@ fn c16_exact_fill(total: usize) -> Option<Failure> {
 /// the transport reports ONE error of the given kind, then the acknowledgements and a message
 /// arrive. Executor A polls only
 /// woken tasks; executor B additionally polls every task after every step.
+/// The writer accepts nothing while the context has a packet to write (a request, or the PUBACK it
+/// owes); `run()` is then polled `n` times although nothing woke it; the writer is released. The
+/// polls are no-ops: `run()` is still pending, the packet goes out, the exchange completes.
+fn c16_spurious_polls_during_a_blocked_write(n: usize, inbound: bool) -> Option<Failure> {
+    use crate::world::World;
+    let plan = WritePlan::default();
+    let mut w = World::new();
+    if connect_and_run(&mut w, ConnectSpec::default(), &default_connack(), &plan).is_err() {
+        return None;
+    }
+    let mut tr = Tracker::new();
+    tr.skip_existing(&mut w);
+    let before = w.wire_len();
+    w.writer.grant(0);
+    w.tick();
+    let op = if inbound {
+        w.reader.feed(rc::encode(&rc::Packet::Publish(rc::Publish { qos: 1, pid: Some(77), topic: "c16/in".into(), payload: vec![1], ..Default::default() }), &rc::Form::canonical()));
+        None
+    } else {
+        Some(w.start_op(0, OpSpec::Publish(tagged_publish(1, 1)))?)
+    };
+    settle(&mut w, &plan, true);
+    if w.run_result.is_some() || !w.ctx_running() || w.wire_len() != before {
+        return None;
+    }
+    for _ in 0..n {
+        w.poll_ctx();
+        if w.run_result.is_some() {
+            break;
+        }
+    }
+    if let Some(p) = first_panic(&w) {
+        return Some(Failure { sig: format!("PANIC/{}", panic_sig(&p)), msg: p });
+    }
+    let how = format!("{n} polls of run() that nothing asked for, while the {} waited for a writer that accepted nothing", if inbound { "PUBACK for an inbound QoS 1 PUBLISH" } else { "PUBLISH of a QoS 1 publish" });
+    if let Some(r) = &w.run_result {
+        return Some(Failure { sig: "C16/spurious-poll-changed-state/run-returned-during-a-blocked-write".into(), msg: format!("run() returned {r:?} ({how})") });
+    }
+    w.writer.unlimited();
+    w.tick();
+    settle(&mut w, &plan, true);
+    w.sync_wire();
+    tr.update(&mut w);
+    match op {
+        None => {
+            let acks = w.pkts.iter().filter(|p| matches!(&p.decoded, Ok(rc::Packet::Puback(a)) if a.pid == 77)).count();
+            if acks != 1 {
+                return Some(Failure { sig: "C16/spurious-poll-changed-state/acknowledgement".into(), msg: format!("{acks} PUBACK written once the writer was released ({how})") });
+            }
+        }
+        Some(op) => {
+            let Some(pid) = tr.pid(op) else {
+                return Some(Failure { sig: "C16/spurious-poll-changed-state/request-not-written".into(), msg: format!("the PUBLISH did not reach the wire once the writer was released ({how})") });
+            };
+            feed_packet(&mut w, &rc::Packet::Puback(rc::Ack { pid, ..Default::default() }), &rc::Form::short());
+            settle(&mut w, &plan, true);
+            if w.ops[op].res != Some(OpRes::Ok) {
+                return Some(Failure { sig: "C16/spurious-poll-changed-state/operation-results".into(), msg: format!("the publish ended as {:?} ({how})", w.ops[op].res) });
+            }
+        }
+    }
+    None
+}
+
 fn c16_transient_fault(kind: usize, n: usize) -> Option<Failure> {
     use crate::world::World;
     const KINDS: [std::io::ErrorKind; 7] = [
@@ -3086,6 +3150,11 @@ impl Property for C16 {
             return o;
         }
         o.class("read-fills-the-buffer-exactly-script");
+        if let Some(f) = c16_spurious_polls_during_a_blocked_write([1usize, 50, 1500, 5000][(h / 11 % 4) as usize], h / 44 % 2 == 0) {
+            o.fail = Some(f);
+            return o;
+        }
+        o.class("spurious-polls-during-a-blocked-write-script");
         o.nontrivial = split >= 1 && completions >= 1;
         if split > 0 {
             o.class("inbound-packet-split-over-reads");
